@@ -368,23 +368,27 @@ example :
       some 128408440347523948476745134879912532565 := by
   decide +kernel
 
-/-- `M128::inv_2adic`: whenever it returns, the result is the negated 2-adic inverse modulo `R`
-(`R = 2^64` for `n < 2^64`, else `2^128`). PARTIAL: totality on all odd `n` is NOT claimed, because
-it is false for the checked profile (see `M128_inv2adic_overflow_witness`); for `n < 2^64` the
-routine is `mg_2adic_inv` and is total (`Ymq.Mg64.Mg64.mg2adicInv_odd`). -/
-theorem M128_inv2adic_spec_partial (n v : Nat) (h : M128.inv2adic n = some v) :
-    if n < Mg64.W then (n * v + 1) % Mg64.W = 0 else (n * v + 1) % M128.W2 = 0 :=
-  M128.inv2adic_sound n v h
+/-- `M128::inv_2adic` (after /repo commit a0db7d0 "fix: M128::inv_2adic overflowed u128 ..."): for
+every odd `n < 2^128` the loop terminates within the fuel, no panic site is reached and the result
+`v < R` satisfies `n·v ≡ -1 (mod R)` (`R = 2^64` for `n < 2^64`, else `2^128`). Before the fix the
+statement was false in the checked profile: the loop starts from `mg_2adic_inv(n as u64)` (the
+NEGATED 64-bit inverse) and `x += 1 << 127` overflowed for `n = (2^129+1)/3`. -/
+theorem M128_inv2adic_spec (n : Nat) (hodd : n % 2 = 1) (hn2 : n < M128.W2) :
+    ∃ v, M128.inv2adic n = some v ∧
+      (if n < Mg64.W then v < Mg64.W ∧ (n * v + 1) % Mg64.W = 0
+       else v < M128.W2 ∧ (n * v + 1) % M128.W2 = 0) :=
+  M128.inv2adic_spec n hodd hn2
 
-/-- non-vacuity: `inv_2adic` does return on ordinary moduli -/
-example : M128.inv2adic 340282366920938463463374607431768211297 =
-    some 235415473970460572207366080613172976479 := by decide +kernel
+/-- the former overflow witness `n = (2^129+1)/3` now returns `2^128 - 3` -/
+example : M128.inv2adic 226854911280625642308916404954512140971 =
+    some 340282366920938463463374607431768211453 := by decide +kernel
 
-/-- Counter-witness (checked profile only): for `n = (2^129 + 1)/3` the loop of `M128::inv_2adic`
-is started from `mg_2adic_inv(n as u64) = 2^64 - 3` (the NEGATED 64-bit inverse), reaches
-`x = 2^127 + 3` and then executes `x += 1 << 127`, which overflows `u128`: panic with overflow
-checks (`none` in the model). The release build wraps to `x = 3` and returns the right value. -/
-theorem M128_inv2adic_overflow_witness :
-    M128.inv2adic 226854911280625642308916404954512140971 = none := by decide +kernel
+/-- `M128::r_r2`: returns `(R mod n, R² mod n)` for the multiplier `R` of `M128::mul`
+(the seven Montgomery squarings of `2R` give `2^128·R`). -/
+theorem M128_r_r2_spec (n ninv : Nat) (hodd : n % 2 = 1) (hn2 : n < M128.W2)
+    (hninv : if n < Mg64.W then (n * ninv + 1) % Mg64.W = 0 else (n * ninv + 1) % M128.W2 = 0) :
+    M128.rR2 n ninv = some (if n < Mg64.W then (Mg64.W % n, Mg64.W * Mg64.W % n)
+      else (M128.W2 % n, M128.W2 * M128.W2 % n)) :=
+  M128.rR2_spec n ninv hodd hn2 hninv
 
 end Ymq.C07
